@@ -90,7 +90,15 @@ def tokenize(src, line0=1):
 
 
 def untokenize(toks, tail=''):
-    return ''.join(t.tr + t.t for t in toks) + tail
+    # two word-like tokens that end up adjacent without trivia (the token between them was removed by an edit of /repo) must not fuse
+    out = []
+    prev = None
+    for t in toks:
+        tr = t.tr
+        if prev is not None and tr == '' and prev.t and t.t and (prev.t[-1].isalnum() or prev.t[-1] == '_') and (t.t[0].isalnum() or t.t[0] == '_'):
+            tr = ' '
+        out.append(tr + t.t); prev = t
+    return ''.join(out) + tail
 
 OPEN = {'(': ')', '[': ']', '{': '}'}
 CLOSE = {')': '(', ']': '[', '}': '{'}
@@ -483,7 +491,7 @@ def sha(s):
     return hashlib.sha256(s.encode()).hexdigest()
 
 
-def degrade(out_tokens, kind):
+def degrade(out_tokens, kind, assume=True):
     """Degraded form of a woven item whose body can no longer carry the overlay (restructured code): keep the contract
     header(s) - ghost tokens outside function bodies - drop every ghost token inside a body, and mark each fn
     `#[verifier::external_body]` so that its contract is ASSUMED, not proved (the properties it carries are then
@@ -496,7 +504,7 @@ def degrade(out_tokens, kind):
             if depth <= base: res.append(t)
             continue
         if t.t == '}': depth -= 1
-        if t.t == 'fn' and depth == base:
+        if t.t == 'fn' and depth == base and assume:
             k = len(res)
             while k > 0 and (not res[k - 1].ghost) and res[k - 1].t in ('pub', ')', 'crate', '(', 'super', 'in'): k -= 1
             a = Tok('#[verifier::external_body]', '\n', t.line); a.ghost = True
